@@ -17,6 +17,7 @@
   Core Lean only (the driver evaluates the spec beside the model).
 -/
 import EasyMl.Model.RecordContainer
+import EasyMl.Model.RecordContainerSurface
 
 namespace EasyMl
 
@@ -228,6 +229,12 @@ inductive CInstr (R : Type) where
   | reset (a : Nat)                                            -- in place
   | unAssign (op : UOp R) (a : Nat)                            -- `unary_assign`, in place
   | leftAssign (op : BOp R) (a b : Nat)                        -- `binary_left_assign`, overwrites `a`
+  | rightAssign (op : BOp R) (a b : Nat)                       -- `(do_)binary_right_assign`, overwrites `b`
+  | clone (a : Nat)                                            -- `clone` / `clone_from`
+  | viaRecord (a : Nat)                                        -- 0-dim tensor → `Record` → 0-dim tensor
+  | elem (a : Nat) (idx : List Nat)                            -- `get_as_record(idx)`, then `From<Record>`
+  | swap (a : Nat) (i j : List Nat)                            -- two elements exchanged via `get_reference_mut(..).unwrap()`
+  | fromIter (a : Nat)                                         -- `from_iter(shape, a.iter_as_records()).unwrap()`
 
 /-- what the specification keeps of a container: its shape and its records -/
 abbrev SCont (R : Type) := Shape String × List (Rec R)
@@ -253,8 +260,13 @@ def specMatmul (tensor : Bool) (a b : SCont R) (w : World R) : Outcome (SCont R 
 def CInstr.stepModel (i : CInstr R) (cs : List (Cont R)) (w : World R) :
     Outcome (List (Cont R) × World R) :=
   match i with
-  | .vars h shape vals => let r := Cont.variables h shape vals w; .ok (cs ++ [r.1], r.2)
-  | .consts shape vals => .ok (cs ++ [Cont.constants shape vals], w)
+  | .vars h shape vals =>
+    -- `Tensor::from` / `Matrix::from_flat_row_major` insist on as many numbers as cells, ≥ 1
+    if vals.length ≠ elements shape ∨ vals.length = 0 then .panic .explicit
+    else let r := Cont.variables h shape vals w; .ok (cs ++ [r.1], r.2)
+  | .consts shape vals =>
+    if vals.length ≠ elements shape ∨ vals.length = 0 then .panic .explicit
+    else .ok (cs ++ [Cont.constants shape vals], w)
   | .un op a =>
     match cs[a]? with
     | none => .panic .index
@@ -284,13 +296,54 @@ def CInstr.stepModel (i : CInstr R) (cs : List (Cont R)) (w : World R) :
     | some x, some y =>
       (x.binaryLeftAssign y op.fns.1 op.fns.2.1 op.fns.2.2 w).map fun r => (cs.set a r.1, r.2)
     | _, _ => .panic .index
+  | .rightAssign op a b =>
+    match cs[a]?, cs[b]? with
+    | some x, some y =>
+      (x.doBinaryRightAssign y op.fns.1 op.fns.2.1 op.fns.2.2 w).map fun r => (cs.set b r.1, r.2)
+    | _, _ => .panic .index
+  | .clone a =>
+    match cs[a]? with
+    | none => .panic .index
+    | some c => .ok (cs ++ [Cont.cloneFrom c c.clone], w)
+  | .viaRecord a =>
+    match cs[a]? with
+    | none => .panic .index
+    | some c =>
+      match c.intoRecord with
+      | .ok r => .ok (cs ++ [Cont.fromRecordRef r], w)
+      | .panic k => .panic k
+  | .elem a idx =>
+    match cs[a]? with
+    | none => .panic .index
+    | some c =>
+      match c.getAsRecord (Cont.position c.shape idx) with
+      | .ok r => .ok (cs ++ [Cont.fromRecord r], w)
+      | .panic k => .panic k
+  | .swap a i j =>
+    match cs[a]? with
+    | none => .panic .index
+    | some c =>
+      match Cont.position c.shape i, Cont.position c.shape j with
+      | some pi, some pj => .ok (cs.set a (c.swapElems pi pj), w)
+      | _, _ => .panic .unwrap
+  | .fromIter a =>
+    match cs[a]? with
+    | none => .panic .index
+    | some c =>
+      match Cont.fromIterTensor c.shape c.toRecs with
+      | .ok c' => .ok (cs ++ [c'], w)
+      | .error _ => .panic .unwrap
 
 /-- the same step done element by element with scalar records -/
 def CInstr.stepSpec (i : CInstr R) (cs : List (SCont R)) (w : World R) :
     Outcome (List (SCont R) × World R) :=
   match i with
-  | .vars h shape vals => let r := variablesRecs h vals w; .ok (cs ++ [(shape, r.1)], r.2)
-  | .consts shape vals => .ok (cs ++ [(shape, vals.map Rec.constant)], w)
+  | .vars h shape vals =>
+    if vals.length ≠ elements shape ∨ vals.length = 0 then .panic .explicit
+    else let r := variablesRecs h vals w; .ok (cs ++ [(shape, r.1)], r.2)
+  | .consts shape vals =>
+    if vals.length ≠ elements shape ∨ vals.length = 0 then .panic .explicit
+    else .ok (cs ++ [(shape, vals.map Rec.constant)], w)
   | .un op a =>
     match cs[a]? with
     | none => .panic .index
@@ -323,6 +376,46 @@ def CInstr.stepSpec (i : CInstr R) (cs : List (SCont R)) (w : World R) :
       if x.1 ≠ y.1 then .panic .explicit
       else (zipRecs op.scalar x.2 y.2 w).map fun r => (cs.set a (x.1, r.1), r.2)
     | _, _ => .panic .index
+  | .rightAssign op a b =>
+    match cs[a]?, cs[b]? with
+    | some x, some y =>
+      if x.1 ≠ y.1 then .panic .explicit
+      else
+        -- the right element's record combined with the left one's: arguments swapped, the
+        -- derivative w.r.t. the right element first
+        (zipRecs (fun ry rx w => ry.binary rx (fun y x => op.fns.1 x y) (fun y x => op.fns.2.2 x y)
+            (fun y x => op.fns.2.1 x y) w) y.2 x.2 w).map fun r => (cs.set b (y.1, r.1), r.2)
+    | _, _ => .panic .index
+  | .clone a =>
+    match cs[a]? with
+    | none => .panic .index
+    | some c => .ok (cs ++ [c], w)
+  | .viaRecord a =>
+    match cs[a]? with
+    | none => .panic .index
+    | some c =>
+      match c.2 with
+      | r :: _ => .ok (cs ++ [([], [r])], w)
+      | [] => .panic .unwrap
+  | .elem a idx =>
+    match cs[a]? with
+    | none => .panic .index
+    | some c =>
+      match (Cont.position c.1 idx).bind fun k => c.2[k]? with
+      | some r => .ok (cs ++ [([], [r])], w)
+      | none => .panic .explicit
+  | .swap a i j =>
+    match cs[a]? with
+    | none => .panic .index
+    | some c =>
+      match Cont.position c.1 i, Cont.position c.1 j with
+      | some pi, some pj => .ok (cs.set a (c.1, listSwap c.2 pi pj), w)
+      | _, _ => .panic .unwrap
+  | .fromIter a =>
+    match cs[a]? with
+    | none => .panic .index
+    | some c =>
+      if validateDimensions c.1 c.2.length = none then .ok (cs ++ [c], w) else .panic .unwrap
 
 /-- a program with the model: the first panic ends the run -/
 def runModel : List (CInstr R) → List (Cont R) → World R → Outcome (List (Cont R) × World R)
@@ -339,13 +432,6 @@ def runSpec : List (CInstr R) → List (SCont R) → World R → Outcome (List (
     match i.stepSpec cs w with
     | .panic k => .panic k
     | .ok (cs', w') => runSpec rest cs' w'
-
-/-- the constructors of a program are given as many numbers as their shape has cells, at least
-    one (what `Tensor::from` / `Matrix::from_flat_row_major` insist on) -/
-def CInstr.Valid : CInstr R → Prop
-  | .vars _ shape vals => vals.length = elements shape ∧ vals ≠ []
-  | .consts shape vals => vals.length = elements shape ∧ vals ≠ []
-  | _ => True
 
 /-- `derivatives()` said with scalar records only: nothing for constants, otherwise the reverse
     sweep of every record (the records of one container are all constants or all on one tape) -/
